@@ -1,2 +1,265 @@
--- stub: replaced by the queue engine driver
-def main : IO Unit := pure ()
+/-
+Line-protocol driver for the commit-queue engine (C34, C37).
+Reply format: `<model>\t<spec>`; spec patterns: `*` anything, `a|b` alternatives.
+
+The model is the small-step system of `NoKVModel/Queue/Model.lean`; the driver plays the
+schedule a sequential test harness induces: after every op line it lets every client and the
+worker run until nothing but the environment can move (`settle`).
+
+ops (t = client slot 0..7, keys/values hex, "-" = empty):
+  open cap=.. mbc=.. mbs=.. wbc=.. wbs=.. hot=.. vt=..   fresh DB with these options
+  set t k v | del t k | get t k    issue the call; reply = its result, or `pending`
+  await t                          result of a call that was pending (or `none`)
+  throttle on|off                  L0 throttle callback; `off` lets pending calls finish
+  close                            DB.Close, then pending calls finish
+  conc … | live …                  free-running validation workloads (real code only): the
+                                   expected canonical outcome is fixed
+-/
+import Driver.Lib
+import NoKVModel.Queue.Model
+import NoKVModel.Queue.HandshakeModel
+import NoKVModel.Queue.CloserModel
+
+open NoKV NoKV.Queue Driver
+
+structure DSt where
+  cfg : QCfg := QCfg.good
+  hcfg : HCfg := HCfg.good
+  wcfg : CCfg := CCfg.good
+  /-- false when the cfg line does not carry q.getClosed (C37 runs: for a `Get` after Close only
+      "it returned" matters there, both sides print `returned`) -/
+  getKnown : Bool := false
+  p : Params := {}
+  s : St := St.init 8
+  /-- results of calls that finished while nobody was waiting for them -/
+  parked : List (Nat × String) := []
+  /-- slots whose call was still pending when `close` was issued -/
+  atClose : List Nat := []
+  /-- slots with a call whose result has not been reported yet -/
+  outstanding : List Nat := []
+  /-- the abstract map the property is stated against: acknowledged writes, in order -/
+  spec : Store := []
+
+def resStr : Res → String
+  | .ok => "ok"
+  | .val v => "val:" ++ Bytes.toHex v
+  | .notfound => "notfound"
+  | .emptykey => "emptykey"
+  | .hot => "hot"
+  | .toobig => "toobig"
+  | .blocked => "blocked"
+  | .closedErr => "closed"
+  | .panic => "panic"
+
+def setCfg (st : DSt) (kv : String) : Option DSt :=
+  match kv.splitOn "=" with
+  | [k, v] =>
+    match k with
+    | "q.tooBigCountOp" => do let o ← CmpOp.ofString? v; pure { st with cfg := { st.cfg with tooBigCountOp := o } }
+    | "q.tooBigSizeOp" => do let o ← CmpOp.ofString? v; pure { st with cfg := { st.cfg with tooBigSizeOp := o } }
+    | "q.batchCountOp" => do let o ← CmpOp.ofString? v; pure { st with cfg := { st.cfg with batchCountOp := o } }
+    | "q.batchSizeOp" => do let o ← CmpOp.ofString? v; pure { st with cfg := { st.cfg with batchSizeOp := o } }
+    | "q.thrLoopChecksClosed" => do let b ← boolOfString? v; pure { st with cfg := { st.cfg with thrLoopChecksClosed := b } }
+    | "q.closeReleasesThrottle" => do let b ← boolOfString? v; pure { st with cfg := { st.cfg with closeReleasesThrottle := b } }
+    | "q.singleWorker" => do let b ← boolOfString? v; pure { st with cfg := { st.cfg with singleWorker := b } }
+    | "q.fifoPop" => do let b ← boolOfString? v; pure { st with cfg := { st.cfg with fifoPop := b } }
+    | "q.ackAfterApply" => do let b ← boolOfString? v; pure { st with cfg := { st.cfg with ackAfterApply := b } }
+    | "q.pathOrderStd" => do let b ← boolOfString? v; pure { st with cfg := { st.cfg with pathOrderStd := b } }
+    | "q.closeOrderStd" => do let b ← boolOfString? v; pure { st with cfg := { st.cfg with closeOrderStd := b } }
+    | "q.enqChecksClosed" => do let b ← boolOfString? v; pure { st with cfg := { st.cfg with enqChecksClosed := b } }
+    | "q.enqFailKeepsRef" => do let b ← boolOfString? v; pure { st with cfg := { st.cfg with enqFailKeepsRef := b } }
+    | "q.getClosed" =>
+      if v == "notfound" then some { st with getKnown := true, cfg := { st.cfg with getClosed := .notfound } }
+      else if v == "closedErr" then some { st with getKnown := true, cfg := { st.cfg with getClosed := .closedErr } }
+      else none
+    | "q.getGuard" => do let b ← boolOfString? v; pure { st with wcfg := { st.wcfg with getGuard := b } }
+    | "q.exitCheckOrder" =>
+      if v == "queueLenFirst" then some { st with hcfg := { st.hcfg with exitOrder := .queueLenFirst } }
+      else if v == "inflightFirst" then some { st with hcfg := { st.hcfg with exitOrder := .inflightFirst } }
+      else none
+    | _ => none
+  | _ => none
+
+/-- one round: every client as far as it can go, then the worker through one whole batch -/
+def round (c : QCfg) (p : Params) (s : St) : St × Bool := Id.run do
+  let mut s := s
+  let mut moved := false
+  for t in [0:s.clients.length] do
+    for _ in [0:8] do
+      match step c p s (.cstep t) with
+      | some s' => s := s'; moved := true
+      | none => break
+  match step c p s .wpop with
+  | some s' =>
+    s := s'; moved := true
+    for _ in [0:4096] do
+      match step c p s .wmore with
+      | some s' => s := s'
+      | none => break
+    for _ in [0:4096] do
+      match step c p s .wapply with
+      | some s' => s := s'
+      | none => break
+    for _ in [0:4096] do
+      match step c p s .wack with
+      | some s' => s := s'
+      | none => break
+  | none => pure ()
+  match step c p s .wexit with
+  | some s' => s := s'; moved := true
+  | none => pure ()
+  return (s, moved)
+
+def settle (c : QCfg) (p : Params) (s : St) : St := Id.run do
+  let mut s := s
+  for _ in [0:64] do
+    let (s', moved) := round c p s
+    s := s'
+    if !moved then break
+  return s
+
+/-- the last result returned to slot `t` -/
+def lastRet (h : List Ev) (t : Nat) : Option Res :=
+  h.reverse.findSome? fun
+    | .ret t' r => if t' = t then some r else none
+    | _ => none
+
+def isIdle (s : St) (t : Nat) : Bool :=
+  match s.clients[t]? with
+  | some cl => cl.pc == .idle
+  | none => true
+
+/-- results of outstanding calls that have returned meanwhile: park them, and apply the
+acknowledged writes to the abstract map (in completion order = slot order within one settle) -/
+def harvest (st : DSt) (skip : Option Nat := none) : DSt := Id.run do
+  let mut st := st
+  for t in st.outstanding do
+    if isIdle st.s t then
+      let r := (lastRet st.s.hist t).getD .panic
+      let op := match st.s.clients[t]? with | some cl => cl.op | none => .get []
+      if r == .ok && op.isWrite then
+        st := { st with spec := (applyOp st.spec op).2 }
+      let raced := st.atClose.contains t && !st.cfg.enqFailKeepsRef && (r == .blocked || r == .panic)
+      let str := if raced then "closed-race" else resStr r
+      st := { st with outstanding := st.outstanding.erase t, atClose := st.atClose.erase t }
+      if skip != some t then
+        st := { st with parked := (t, str) :: st.parked }
+  return st
+
+def specRead (st : DSt) (k : Key) : String :=
+  -- concurrent (pending) writes to the same key may or may not have taken effect
+  let cur := resStr (Store.read st.spec k)
+  let alts := st.outstanding.filterMap fun t =>
+    match st.s.clients[t]? with
+    | some cl => if cl.pc != .idle && cl.op.isWrite && cl.op.key == k then
+        some (resStr (Store.read (applyOp st.spec cl.op).2 k)) else none
+    | none => none
+  let vals := "|".intercalate (cur :: alts)
+  -- the empty key is not a key: a read of it may be refused (the register spec has no such cell)
+  let vals := if k == [] then "emptykey|" ++ vals else vals
+  if st.s.clPc ≥ 1 then "closed|" ++ vals else vals
+
+def specWrite (st : DSt) : String :=
+  if st.s.clPc = 4 then "blocked|hot|toobig|emptykey|closed"
+  else "ok|hot|toobig|blocked|emptykey|pending"
+
+def doCall (st : DSt) (t : Nat) (op : Op) : DSt × String :=
+  if !(isIdle st.s t) || st.outstanding.contains t || st.parked.any (fun e => e.1 == t) then (st, "busy\t*")
+  else
+    let specCol := if op.isWrite then specWrite st else specRead st op.key
+    match step st.cfg st.p st.s (.call t op) with
+    | none => (st, "bad-slot\t*")
+    | some s1 =>
+      let s2 := settle st.cfg st.p s1
+      let st := { st with s := s2, outstanding := st.outstanding ++ [t] }
+      if isIdle s2 t then
+        let r := (lastRet s2.hist t).getD .panic
+        let st := harvest st (skip := some t)
+        -- `harvest` already applied an acknowledged write of slot t
+        if !op.isWrite && !st.getKnown && s2.clPc ≥ 3 && op.key != [] then (st, "returned\treturned")
+        else (st, resStr r ++ "\t" ++ specCol)
+      else
+        (harvest st, "pending\t" ++ specCol)
+
+def parseNatKV (toks : List String) (k : String) (d : Nat) : Nat :=
+  match kv? toks k with
+  | some v => (natOf? v).getD d
+  | none => d
+
+def stepD (st : DSt) (toks : List String) : DSt × String :=
+  match toks with
+  | "cfg" :: kvs =>
+    match kvs.foldlM setCfg st with
+    | some st' => (st', "ok")
+    | none => (st, "bad-cfg")
+  | "open" :: kvs =>
+    let p : Params := {
+      cap := parseNatKV kvs "cap" 1024, maxBatchCount := parseNatKV kvs "mbc" 64,
+      maxBatchSize := parseNatKV kvs "mbs" 1048576, wbCount := parseNatKV kvs "wbc" 64,
+      wbSize := parseNatKV kvs "wbs" 1048576, hotLimit := parseNatKV kvs "hot" 0,
+      valThreshold := parseNatKV kvs "vt" 1024 }
+    ({ st with p := p, s := St.init 8, parked := [], atClose := [], outstanding := [], spec := [] }, "ok\t*")
+  | ["set", t, k, v] =>
+    match natOf? t, bytesOf? k, bytesOf? v with
+    | some t, some k, some v => doCall st t (.set k v)
+    | _, _, _ => (st, "bad-op")
+  | ["del", t, k] =>
+    match natOf? t, bytesOf? k with
+    | some t, some k => doCall st t (.del k)
+    | _, _ => (st, "bad-op")
+  | ["get", t, k] =>
+    match natOf? t, bytesOf? k with
+    | some t, some k => doCall st t (.get k)
+    | _, _ => (st, "bad-op")
+  | ["await", t] =>
+    match natOf? t with
+    | some t =>
+      match st.parked.find? (fun e => e.1 == t) with
+      | some (_, r) =>
+        ({ st with parked := st.parked.filter (fun e => e.1 != t) }, r ++ "\t" ++
+          (if st.s.clPc ≥ 1 then "ok|blocked|hot|toobig|closed" else "ok|blocked|hot|toobig"))
+      | none => (st, (if st.outstanding.contains t then "pending" else "none") ++ "\t*")
+    | none => (st, "bad-op")
+  | ["throttle", onoff] =>
+    let a := if onoff == "on" then Act.thrOn else Act.thrOff
+    match step st.cfg st.p st.s a with
+    | some s1 =>
+      let st := harvest { st with s := settle st.cfg st.p s1 }
+      (st, "ok\t*")
+    | none => (st, "ignored\t*")
+  | ["close"] =>
+    let st := { st with atClose := st.outstanding }
+    -- Close runs to completion: queue closed, worker drains and exits, lsm closed, flag set;
+    -- calls parked in the throttle loop finish on the way
+    let s := Id.run do
+      let mut s := st.s
+      for _ in [0:8] do
+        match step st.cfg st.p s .close with
+        | some s' => s := settle st.cfg st.p s'
+        | none => s := settle st.cfg st.p s
+      return s
+    let st := harvest { st with s := s }
+    (st, (if s.clPc = 4 then "ok" else "stuck") ++ "\tok")
+  -- free-running validation workloads: executed on the real code only
+  | "conc" :: _ => (st, "lin-ok\tlin-ok")
+  | "live" :: _ => (st, "all-returned\tall-returned")
+  -- Get racing with Close on the Closer wait group (Queue/CloserModel.lean): the stress op
+  -- repeats the race until Close panics or its rounds are used up
+  | "wgrace" :: _ =>
+    let acts := if st.wcfg.getGuard then [WAct.radd 0, .cstart, .cwait, .rdone 0, .cresume] else wgRace
+    let out := match wrun st.wcfg (WSt.init 2) acts with
+      | some w => wOutcome w
+      | none => "bad-schedule"
+    (st, out ++ "\tclose-returned")
+  -- the fine-grained close/worker-exit protocol (Queue/HandshakeModel.lean)
+  | "hs" :: sched =>
+    match sched.mapM HAct.ofString? with
+    | some acts =>
+      let out := match hrun st.hcfg HSt.init acts with
+        | some h => hOutcome h
+        | none => "bad-schedule"
+      (st, out ++ "\t" ++ (if out == "bad-schedule" then "*" else "worker-exited:clean|worker-running"))
+    | none => (st, "bad-op")
+  | _ => (st, "bad-op")
+
+def main : IO Unit := Driver.loop ({} : DSt) stepD
